@@ -113,6 +113,13 @@ func c07Scenario(p c07Params) *explore.Scenario {
 			cancel()
 		}
 		vx.Quiesce()
+		if p.Stall {
+			// the server was only slow: it reads again. (A write that is blocked on the
+			// socket cannot notice a context cancellation; what is required is that the
+			// teardown completes once the write has completed or failed.)
+			vc.StallWrites(0)
+			vx.Quiesce()
+		}
 		if p.FloodCtl {
 			vx.Sleep(10 * time.Minute) // let every rate-limit hold expire
 			vx.Quiesce()
@@ -347,10 +354,14 @@ func c07Jobs(tier string) []Job {
 			bs := b1
 			if thorough {
 				bs = b2
+			} else if (bl == 34 || bl == 64 || bl == 66) && cs != "close" {
+				continue // quick tier: the in-between sizes only for Close
 			}
 			add(c07Params{Backlog: bl, Segs: "one", Mode: "gated", Cause: cs}, bs, 10+bl)
 		}
-		add(c07Params{Backlog: bl, Segs: "many", Mode: "gated", Cause: "close"}, b1, 10+bl)
+		if thorough || bl == 1 || bl == 70 {
+			add(c07Params{Backlog: bl, Segs: "many", Mode: "gated", Cause: "close"}, b1, 10+bl)
+		}
 	}
 	if thorough {
 		for _, cs := range causes {
@@ -409,15 +420,25 @@ func c07Jobs(tier string) []Job {
 						continue
 					}
 					bs := b2
+					if tr {
+						bs = b1 // tracked sessions are three times as long
+					}
 					if thorough {
 						bs = b3
+						if tr {
+							bs = b2
+						}
 					}
 					jobs = append(jobs, ExploreJob("C07", ExploreSpec{Sc: c07ReconnectScenario(c07RecParams{Cause: cs, From: from, Cycles: 2, Tracking: tr, Welcome: w, Backlog: 1}), Variants: []int{1, 2, 3}, Budgets: bs, Cache: true}, 30))
 				}
 			}
 		}
-		jobs = append(jobs, ExploreJob("C07", ExploreSpec{Sc: c07ReconnectScenario(c07RecParams{Cause: "close", From: from, Cycles: 3, Welcome: "same", Backlog: 0}), Variants: []int{1, 2, 3}, Budgets: b2, Cache: true}, 40))
-		jobs = append(jobs, ExploreJob("C07", ExploreSpec{Sc: c07ReconnectScenario(c07RecParams{Cause: "eof", From: from, Cycles: 3, Tracking: true, Welcome: "changed", Backlog: 3, ChanCap: 2}), Variants: []int{1, 2, 3}, Budgets: b2, Cache: true}, 40))
+		bs3 := b1
+		if thorough {
+			bs3 = b2
+		}
+		jobs = append(jobs, ExploreJob("C07", ExploreSpec{Sc: c07ReconnectScenario(c07RecParams{Cause: "close", From: from, Cycles: 3, Welcome: "same", Backlog: 0}), Variants: []int{1, 2, 3}, Budgets: bs3, Cache: true}, 40))
+		jobs = append(jobs, ExploreJob("C07", ExploreSpec{Sc: c07ReconnectScenario(c07RecParams{Cause: "eof", From: from, Cycles: 3, Tracking: true, Welcome: "changed", Backlog: 3, ChanCap: 2}), Variants: []int{1, 2, 3}, Budgets: bs3, Cache: true}, 40))
 	}
 	return jobs
 }
